@@ -186,8 +186,9 @@ func (matrix *SparseReal32Matrix) SLICE(rfrom, rto, cfrom, cto int) *SparseReal3
   return &m
 }
 func (matrix *SparseReal32Matrix) AsSparseReal32Vector() *SparseReal32Vector {
-  if matrix.cols < matrix.colMax - matrix.colOffset ||
-    (matrix.rows < matrix.rowMax - matrix.rowOffset) {
+  // a view (fewer rows or columns than the storage block) does not own the
+  // underlying vector: collect its elements
+  if matrix.rowMax > matrix.rows || matrix.colMax > matrix.cols {
     n, m := matrix.Dims()
     v := nilSparseReal32Vector(n*m)
     for it := matrix.ConstIterator(); it.Ok(); it.Next() {
